@@ -513,11 +513,11 @@ func c30Fuzz(r *simkit.Run) {
 
 func init() {
 	simkit.Register(&simkit.Harness{
-		ID:   "C30",
-		Run:  c30Run,
-		Real: []string{"quicstreamheader.ClientBroker", "quicstreamheader.HandlerBroker", "baseBroker read/write of heads and bodies", "util.EnsureRead/ReadLengthed", "JSON encoder (encoding/json fallback)"},
-		Stub: []string{"transport: a simulated duplex stream (two in-memory pipes with tape-chosen chunking, cut after a byte budget, one bit flipped at an offset); QUIC itself is not run"},
-		Rule: "each run draws a request head, a request body and a response body of every kind (empty, fixed length incl. 0, stream), a response head (ok / error text), chunking 1..4096 bytes and one fault (none, client->handler stream cut, bit flip in client->handler, cut or flip in handler->client); client and handler brokers run as tasks on the two ends. Clean stream: the other side reads exactly what was written. Any stream: an error or a message, never a panic, and no side stays blocked once both directions are closed. A fourth of the runs feed a structured-garbage byte stream straight into ReadRequestHead/ReadBody or ReadResponseHead/ReadBody. distinct = event-log hash",
+		ID:          "C30",
+		Run:         c30Run,
+		Real:        []string{"quicstreamheader.ClientBroker", "quicstreamheader.HandlerBroker", "baseBroker read/write of heads and bodies", "util.EnsureRead/ReadLengthed", "JSON encoder (encoding/json fallback)"},
+		Stub:        []string{"transport: a simulated duplex stream (two in-memory pipes with tape-chosen chunking, cut after a byte budget, one bit flipped at an offset); QUIC itself is not run"},
+		Rule:        "each run draws a request head, a request body and a response body of every kind (empty, fixed length incl. 0, stream), a response head (ok / error text), chunking 1..4096 bytes and one fault (none, client->handler stream cut, bit flip in client->handler, cut or flip in handler->client); client and handler brokers run as tasks on the two ends. Clean stream: the other side reads exactly what was written. Any stream: an error or a message, never a panic, and no side stays blocked once both directions are closed. A fourth of the runs feed a structured-garbage byte stream straight into ReadRequestHead/ReadBody or ReadResponseHead/ReadBody. distinct = event-log hash",
 		Assumptions: []string{"hostile length fields are kept below 16 MiB by the generator (the code accepts up to 2 GiB per lengthed field; allocation size is not part of this property)"},
 	})
 }
